@@ -48,7 +48,21 @@ static int dispatch(struct peer *p, cJSON *req) { model_parse_result = req; retu
 
 /* the owner's connection: its readiness event delivers the owner's reply to the dispatcher */
 static struct io_event OWNER_EV; static cJSON *pending_reply; static int owner_reads;
-static enum eventloop_return owner_read(struct io_event *ev) { (void)ev; owner_reads++; if (pending_reply) { cJSON *m = pending_reply; pending_reply = 0; dispatch(&O, m); } return EL_CONTINUE_LOOP; }
+#ifndef BATCH_KIND
+#define BATCH_KIND 0          /* 0: the owner replies; 1: the owner's connection ends; 2: the caller's connection ends */
+#endif
+static enum eventloop_return owner_read(struct io_event *ev)
+{
+	(void)ev; owner_reads++;
+#if BATCH_KIND == 0
+	if (pending_reply) { cJSON *m = pending_reply; pending_reply = 0; dispatch(&O, m); }
+#elif BATCH_KIND == 1
+	free_peer_resources(&O); dead_peer = &O;          /* what the close path of every transport ends in */
+#else
+	free_peer_resources(&A); dead_peer = &A;          /* (the event belongs to the caller's connection in this variant) */
+#endif
+	return EL_CONTINUE_LOOP;
+}
 static enum eventloop_return owner_write(struct io_event *ev) { (void)ev; return EL_CONTINUE_LOOP; }
 
 void harness_batch(void)
@@ -69,12 +83,17 @@ void harness_batch(void)
 	__CPROVER_assume(dispatch(&A, set) == 0);
 	__CPROVER_assume(nlog == 1 && LOG[0].kind == K_ROUTED && nreg == 1 && REG[0].live);
 	void *timer_ev = REG[0].ptr;                       /* what the kernel reports for the request's timerfd */
+	char routed_id[20]; cpystr(routed_id, sizeof(routed_id), LOG[0].id_str); (void)routed_id;
 	scn_build_begin();
 	cJSON *reply = cJSON_CreateObject();
 	cJSON_AddItemToObject(reply, "id", cJSON_CreateString(LOG[0].id_str));
 	cJSON_AddItemToObject(reply, "result", mknumber(3));
 	scn_build_end();
+#if BATCH_KIND == 0
 	pending_reply = reply;
+#else
+	cJSON_Delete(reply);
+#endif
 	/* one harvested batch: the owner's socket is readable (reply) AND the request's timer expired */
 	struct epoll_event events[2];
 #if REPLY_FIRST
@@ -88,7 +107,21 @@ void harness_batch(void)
 	enum eventloop_return r = handle_events(&EPOLL, 2, events);
 	CHECK(r == EL_CONTINUE_LOOP, "C14.batch_keeps_loop_running");
 	int answers = 0; for (int i = 0; i < nlog; i++) if (LOG[i].kind == K_RESPONSE && LOG[i].to == &A && LOG[i].id_int == 7) answers++;
+#if BATCH_KIND == 0
 	CHECK(answers == 1, "C14.exactly_one_answer_when_reply_and_expiry_are_ready_together");
+#elif BATCH_KIND == 1
+	/* expiry and the owner's disconnect together: one final answer (timeout or shutdown error), never two, never none */
+	CHECK(answers == 1, "C14.exactly_one_answer_when_expiry_and_owner_disconnect_are_ready_together");
+	{ struct sent *a = last_of(&A, K_RESPONSE); CHECK(a && a->is_error && !a->has_result, "C03.unanswered_request_ends_in_an_error"); }
+	CHECK(element_table_get("s") == 0, "C05.owned_elements_disappear");
+#else
+	/* expiry and the caller's disconnect together: the timeout answer only if the expiry was processed first, and
+	   nothing is sent through the released connection (C05.no_send_through_released_transport in the transport) */
+	CHECK(answers == (REPLY_FIRST ? 0 : 1), "C14.timeout_answer_only_while_the_caller_is_connected");
+	dead_peer = 0;
+	{ scn_build_begin(); cJSON *late = cJSON_CreateObject(); cJSON_AddItemToObject(late, "id", cJSON_CreateString(routed_id)); cJSON_AddItemToObject(late, "result", mknumber(3)); scn_build_end();
+	  dead_peer = &A; int lr = dispatch(&O, late); CHECK(lr >= 0, "C05.reply_for_departed_caller_is_harmless"); }
+#endif
 	CHECK(owner_reads == 1, "C14.owner_event_processed_once");
 	CHECK(fds_open == 0 && !REG[0].live, "C07.timer_descriptor_closed_and_deregistered");
 	WITNESS_END();
